@@ -52,6 +52,7 @@ func main() {
 	}
 	c := &Ctx{Prop: *prop, Tier: *tier, Seed: *seed, Thorough: *tier == "thorough", Driver: *driver, Replay: *replay, Known: *known,
 		R: lib.NewResult(*prop, *tier, *seed)}
+	c.R.NoModel = *driver == "none" || *driver == ""
 	if err := run(c); err != nil {
 		fmt.Fprintln(os.Stderr, "driver error:", err)
 		c.R.Notes = append(c.R.Notes, "driver error: "+err.Error())
